@@ -59,10 +59,36 @@ def execute(pl, res):
             for xin in product(vals, repeat=L):
                 if alpha == "pm1" and -1 not in xin:
                     continue            # the bipolar format is recognised by the presence of a -1
-                shapes = [(L,)] + ([(2, L // 2)] if L % 2 == 0 else []) + [(1, 1, L)]
-                eligible = [i for i, s in enumerate(xin) if (ch != "z" or s == one)]
-                for shape in shapes:
-                    x = torch.tensor(xin, dtype=torch.float32).to(dtype).reshape(shape)
+                layouts = [("c", (L,))] + ([("c", (2, L // 2))] if L % 2 == 0 else []) + [("c", (1, 1, L))]
+                # memory layouts: the same logical content presented as a non-contiguous view (transposed, strided slice, channels-last,
+                # stride-0 expanded batch): the law is about logical symbols, whatever the strides
+                if L % 2 == 0 and L >= 4:
+                    layouts += [("transposed", (2, L // 2)), ("channels_last", (1, 2, 1, L // 2))]
+                if L >= 2:
+                    layouts.append(("strided", (L,)))
+                if L <= 3:
+                    layouts.append(("expanded", (2, L)))
+                if L == 4:
+                    layouts.append(("permuted", (2, 1, 2)))
+                for lname, shape in layouts:
+                    base_t = torch.tensor(xin, dtype=torch.float32).to(dtype)
+                    if lname == "c":
+                        x = base_t.reshape(shape)
+                    elif lname == "transposed":
+                        x = base_t.reshape(shape).t().contiguous().t()
+                    elif lname == "channels_last":
+                        x = base_t.reshape(shape).contiguous(memory_format=torch.channels_last)
+                    elif lname == "strided":
+                        x = torch.stack([base_t, torch.full_like(base_t, vals[1])], dim=1).reshape(-1)[::2]
+                    elif lname == "expanded":
+                        x = base_t.reshape(1, L).expand(2, L)
+                    else:
+                        x = base_t.reshape(2, 2).t().contiguous().t().unsqueeze(1)
+                    assert tuple(x.shape) == tuple(shape) and (lname in ("c",) or not x.is_contiguous()), (lname, shape, x.stride())
+                    xlog = [int(t) for t in x.reshape(-1).to(torch.float32).tolist()]
+                    Ll = len(xlog)
+                    eligible = [i for i, s_ in enumerate(xlog) if (ch != "z" or s_ == one)]
+                    shape_s = shape if lname == "c" else f"{shape} [{lname} view, strides {tuple(x.stride())}]"
                     x0 = x.clone()
                     D = None
                     # extremes + all {below, above} vectors; D (draws consumed) is learnt from the first run
@@ -76,12 +102,12 @@ def execute(pl, res):
                     try:
                         y, pol = run([TOP] * 64)
                     except Exception as e:  # noqa: BLE001
-                        v("raises", f"input {list(xin)} shape {shape}: {type(e).__name__}: {str(e)[:160]}")
+                        v("raises", f"input {xlog}{'' if lname == 'c' else ' as ' + lname + ' view'} shape {shape_s}: {type(e).__name__}: {str(e)[:160]}")
                         break
                     D = pol.served
                     res.transitions += 1
                     if D > 12:
-                        v("private-draw", f"{D} draws consumed for {L} symbols")
+                        v("private-draw", f"{D} draws consumed for {Ll} symbols")
                         break
                     vecs = [tuple([TOP] * D), tuple([0.0] * D)]
                     if 0.0 < p < 1.0:
@@ -93,53 +119,53 @@ def execute(pl, res):
                         if pol.served != D:
                             v("private-draw", f"number of draws depends on the answers: {pol.served} vs {D}")
                         if not torch.equal(x, x0):
-                            v("input-intact", f"input {list(xin)} ({dt}) was modified to {x.reshape(-1).tolist()}")
+                            v("input-intact", f"input {xlog}{'' if lname == 'c' else ' as ' + lname + ' view'} ({dt}) was modified to {x.reshape(-1).tolist()}")
                             x = x0.clone()
                         if y is x or (y.data_ptr() == x.data_ptr() and y.numel() > 0):
                             v("input-intact", "output aliases the input tensor")
                         if tuple(y.shape) != tuple(shape):
-                            v("support", f"output shape {tuple(y.shape)} for input shape {shape}")
+                            v("support", f"output shape {tuple(y.shape)} for input shape {shape_s}")
                             continue
                         yl = [float(t) for t in y.reshape(-1).tolist()]
-                        xl = [float(t) for t in xin]
+                        xl = [float(t) for t in xlog]
                         allowed = {float(s) for s in vals} | ({float(ersv)} if ch == "bec" else set())
                         if any(t not in allowed for t in yl):
-                            v("support", f"input {list(xin)}, answers {list(ans)}: output {yl} leaves the alphabet {sorted(allowed)}", {"x": list(xin), "ans": list(ans)})
-                        changed = frozenset(i for i in range(L) if yl[i] != xl[i])
+                            v("support", f"input {xlog}{'' if lname == 'c' else ' as ' + lname + ' view'}, answers {list(ans)}: output {yl} leaves the alphabet {sorted(allowed)}", {"x": xlog, "layout": lname, "ans": list(ans)})
+                        changed = frozenset(i for i in range(Ll) if yl[i] != xl[i])
                         changed_of[ans] = changed
-                        flipped_ok = all((yl[i] == float(ersv)) if ch == "bec" else (yl[i] == float(vals[0] + vals[1] - xin[i])) for i in changed)
+                        flipped_ok = all((yl[i] == float(ersv)) if ch == "bec" else (yl[i] == float(vals[0] + vals[1] - xlog[i])) for i in changed)
                         if not flipped_ok:
-                            v("support", f"input {list(xin)}: changed symbols are not flipped/erased properly: {yl}", {"x": list(xin), "ans": list(ans)})
+                            v("support", f"input {xlog}{'' if lname == 'c' else ' as ' + lname + ' view'}: changed symbols are not flipped/erased properly: {yl}", {"x": xlog, "layout": lname, "ans": list(ans)})
                         if ch == "z" and any(xl[i] != float(one) for i in changed):
-                            v("z-one-sided", f"Z-channel changed a {vals[0]} : input {list(xin)} -> {yl}", {"x": list(xin), "ans": list(ans)})
-                        if ch == "bec" and any(yl[i] != xl[i] and yl[i] != float(ersv) for i in range(L)):
-                            v("bec-unerased", f"unerased symbol changed: {list(xin)} -> {yl}", {"x": list(xin), "ans": list(ans)})
+                            v("z-one-sided", f"Z-channel changed a {vals[0]} : input {xlog}{'' if lname == 'c' else ' as ' + lname + ' view'} -> {yl}", {"x": xlog, "layout": lname, "ans": list(ans)})
+                        if ch == "bec" and any(yl[i] != xl[i] and yl[i] != float(ersv) for i in range(Ll)):
+                            v("bec-unerased", f"unerased symbol changed: {xlog}{'' if lname == 'c' else ' as ' + lname + ' view'} -> {yl}", {"x": xlog, "layout": lname, "ans": list(ans)})
                         if p == 0.0 and changed:
-                            v("p0", f"p=0 but input {list(xin)} -> {yl} (answers {list(ans)})", {"x": list(xin), "ans": list(ans)})
+                            v("p0", f"p=0 but input {xlog}{'' if lname == 'c' else ' as ' + lname + ' view'} -> {yl} (answers {list(ans)})", {"x": xlog, "layout": lname, "ans": list(ans)})
                         if p == 1.0 and changed != frozenset(eligible):
-                            v("p1", f"p=1 but input {list(xin)} -> {yl}: changed {sorted(changed)} instead of all eligible {eligible} (answers {list(ans)})", {"x": list(xin), "ans": list(ans)})
+                            v("p1", f"p=1 but input {xlog}{'' if lname == 'c' else ' as ' + lname + ' view'} -> {yl}: changed {sorted(changed)} instead of all eligible {eligible} (answers {list(ans)})", {"x": xlog, "layout": lname, "ans": list(ans)})
                     # private-draw law
                     if 0.0 < p < 1.0:
                         base = tuple([above] * D)
                         if changed_of[base]:
-                            v("private-draw", f"all draws above p={p} but symbols {sorted(changed_of[base])} changed (input {list(xin)})", {"x": list(xin)})
+                            v("private-draw", f"all draws above p={p} but symbols {sorted(changed_of[base])} changed (input {xlog}{'' if lname == 'c' else ' as ' + lname + ' view'})", {"x": xlog, "layout": lname})
                         S = []
                         for d in range(D):
                             a = list(base)
                             a[d] = below
                             S.append(changed_of[tuple(a)])
                         if any(len(s) > 1 for s in S):
-                            v("private-draw", f"one draw controls several symbols: {[sorted(s) for s in S]} (input {list(xin)})", {"x": list(xin)})
+                            v("private-draw", f"one draw controls several symbols: {[sorted(s) for s in S]} (input {xlog}{'' if lname == 'c' else ' as ' + lname + ' view'})", {"x": xlog, "layout": lname})
                         ctrl = [next(iter(s)) for s in S if len(s) == 1]
                         if sorted(ctrl) != sorted(eligible):
-                            v("private-draw", f"draws below p={p} one at a time change symbols {sorted(ctrl)}, eligible symbols are {eligible} (input {list(xin)}, {D} draws)", {"x": list(xin)})
+                            v("private-draw", f"draws below p={p} one at a time change symbols {sorted(ctrl)}, eligible symbols are {eligible} (input {xlog}{'' if lname == 'c' else ' as ' + lname + ' view'}, {D} draws)", {"x": xlog, "layout": lname})
                         else:
                             for ans, chg in changed_of.items():
                                 if len(ans) != D or not all(a in (below, above) for a in ans):
                                     continue
                                 want = frozenset().union(*[S[d] for d in range(D) if ans[d] == below]) if D else frozenset()
                                 if chg != want:
-                                    v("private-draw", f"answers {['below' if a == below else 'above' for a in ans]}: changed {sorted(chg)}, expected {sorted(want)} (input {list(xin)})", {"x": list(xin), "ans": list(ans)})
+                                    v("private-draw", f"answers {['below' if a == below else 'above' for a in ans]}: changed {sorted(chg)}, expected {sorted(want)} (input {xlog}{'' if lname == 'c' else ' as ' + lname + ' view'})", {"x": xlog, "layout": lname, "ans": list(ans)})
                                     break
-                        res.outcome((ch, L, D, len(eligible)))
+                        res.outcome((ch, Ll, D, len(eligible)))
         res.sample({"channel": ch, "p": p, "alphabet": alpha, "dtype": dt, "erasure_symbol": ersv})
